@@ -1195,12 +1195,14 @@ func (vm *VM) xOpCallCompiled(cfunc *CompiledFunction, numArgs, flags int) error
 		}
 	}
 
-	frame := &(vm.frames[vm.frameIndex])
-	vm.frameIndex++
-
-	if vm.frameIndex > frameSize-1 {
+	if vm.frameIndex >= frameSize-1 {
+		// frameIndex must not move for a call that fails, an error handler of
+		// the calling frame may catch the error and go on.
 		return ErrStackOverflow
 	}
+
+	frame := &(vm.frames[vm.frameIndex])
+	vm.frameIndex++
 
 	frame.fn = cfunc
 	frame.freeVars = cfunc.Free
